@@ -2,23 +2,49 @@ use crate::engine::Tier;
 use crate::sut::Sut;
 
 pub mod c11;
+pub mod c17;
+pub mod c18;
+pub mod c20;
 
-pub fn run(sut: &dyn Sut, prop: &str, tier: Tier) -> ! {
-    match prop {
-        "C11" => c11::run(sut, tier),
-        _ => {
-            eprintln!("no check for property {prop}");
-            std::process::exit(2)
+macro_rules! dispatch {
+    ($($id:literal => $m:ident),* $(,)?) => {
+        pub fn run(sut: &dyn Sut, prop: &str, tier: Tier) -> ! {
+            match prop {
+                $($id => $m::run(sut, tier),)*
+                _ => {
+                    eprintln!("no check for property {prop}");
+                    std::process::exit(2)
+                }
+            }
         }
-    }
+        pub fn replay(sut: &dyn Sut, prop: &str, path: &str) -> ! {
+            crate::preflight::quiet_panics();
+            let v = crate::engine::read_json(path);
+            let r = match prop {
+                $($id => $m::eval_replay(sut, &v),)*
+                _ => {
+                    eprintln!("no check for property {prop}");
+                    std::process::exit(2)
+                }
+            };
+            match r {
+                Ok(()) => {
+                    println!("replay {path}: property {prop} holds on this input");
+                    std::process::exit(0)
+                }
+                Err(m) => {
+                    println!("VIOLATION property={prop} replay={path}");
+                    println!("{m}");
+                    std::process::exit(1)
+                }
+            }
+        }
+    };
 }
 
-pub fn replay(sut: &dyn Sut, prop: &str, path: &str) -> ! {
-    match prop {
-        "C11" => c11::replay(sut, path),
-        _ => {
-            eprintln!("no check for property {prop}");
-            std::process::exit(2)
-        }
-    }
+dispatch! {
+    "C11" => c11,
+    "C17" => c17,
+    "C18" => c18,
+    "C20" => c20,
 }
